@@ -248,11 +248,11 @@ def crowd_load(task):
             for t in ts:
                 t.start()
             for t in ts:
-                t.join(45)
+                t.join(300)
             out["loads"] += k * task["reps"]
             stuck = [i for i in range(k) if i not in res]
             if stuck:
-                out["bad"].append((f"{k}-threads", f"{len(stuck)} of {k} concurrent loads (one thread each, images HH/HV/VH/VV) did not complete within 45 s (deadlock)"))
+                out["bad"].append((f"{k}-threads", f"{len(stuck)} of {k} concurrent loads (one thread each, images HH/HV/VH/VV) did not complete within 300 s (deadlock)"))
                 break
             for i, msg in res.items():
                 if msg:
@@ -398,11 +398,11 @@ def gc_stress(task):
         for t in ts:
             t.start()
         for t in ts:
-            t.join(90)
+            t.join(400)
         out["n"] = box.get("n", 0)
         if any(t.is_alive() for t in ts):
             out["bad"].append(("gc-stress:deadlock", f"loads stopped making progress after {box.get('n', 0)} iterations with the collector running at every allocation "
-                               f"(dropped, already-read tree copies in reference cycles): no completion within 90 s"))
+                               f"(dropped, already-read tree copies in reference cycles): no completion within 400 s"))
         elif box.get("bad"):
             out["bad"].append(("gc-stress:values", box["bad"]))
     finally:
@@ -511,7 +511,7 @@ def body(chk):
             chk.violation(f"crowd:{who}", f"[{res['task']['fs']}] {msg}", {"task": res["task"]})
     chk.rule_extra.append(f"stalled request: one read hangs {holds} s with the variable's lock held while a second load of the same variable (same tree / pickled copy) waits, "
                           "shared file object per path; crowd: 4..16 (thorough: ..64) free-running threads loading the four images of a quad-pol product at once on 4 file systems, "
-                          "45 s watchdog per round")
+                          "300 s watchdog per round")
     path = os.path.join(chk.scratch, "c19.ndjson")
     info = {}
     n = 0
